@@ -4,6 +4,7 @@ package interp
 
 import (
 	"fmt"
+	"os"
 	"go/types"
 	"math/big"
 	"runtime"
@@ -184,6 +185,16 @@ func init() {
 					return
 				}
 				i.callDepth = depth
+				if os.Getenv("SYMGO_DEBUG") != "" {
+					if _, isAbort := r.(pathAbort); !isAbort {
+						msg := fmt.Sprint(r)
+						if tp, ok := r.(targetPanic); ok {
+							msg = i.panicString(tp.v)
+						}
+						fmt.Fprintf(os.Stderr, "DEBUG expected-panic: %T %s\n  stack: %s\n", r, msg, strings.Join(i.dbgStack, "\n   "))
+					}
+				}
+				i.dbgStack = nil
 				switch p := r.(type) {
 				case pathAbort, internalError:
 					panic(r)
